@@ -14,6 +14,8 @@ Values are opaque tokens without spaces: `s<hex code points>` for a Python `str`
   err <reply_serial> <name> <body>    error reply
   expire <tid>                        the reactor runs the timeout of call <tid>
   lost <n>                            connectionLost(reason n)
+  onerr <did> (<N|Z|P> <rs> <serial>)*   the caller attaches to Deferred <did> an errback that issues these
+                                      calls (expectReply=True) when it runs                       -> ok
   cvt <rs> N | cvt <rs> M <sig> <body>   _cbCvtReply called directly
 
   <rs> = K (the _NO_CHECK_RETURN default) | N (None) | S<hex>
@@ -26,6 +28,7 @@ open Txdbus.Calls Driver
 
 abbrev DV := String
 abbrev DSt := St DV Nat
+abbrev DStR := StR DV Nat
 
 def asStrTok (t : DV) : Option (List Char) :=
   match t.toList with
@@ -66,11 +69,6 @@ def showOutcome : Outcome DV Nat → String
   | .timeOut t => "TO " ++ charsToHex t
   | .lost r => "LOST " ++ toString r
   | .constructFailed => "EXC"
-
-def rsOf (s : DSt) (did : Nat) : RetSig :=
-  match dGet did s.issued with
-  | some rs => rs
-  | none => .noCheck
 
 def showFault : Fault → String
   | .keyError => "keyError"
@@ -118,10 +116,24 @@ def parseOp? (ws : List String) : Option (Op DV Nat) :=
     pure (.lost r)
   | _ => none
 
-def stepLine (s : DSt) (line : String) : DSt × String :=
+def parseNewCalls? : List String → Option (List NewCall)
+  | [] => some []
+  | tmo :: rs :: serial :: rest => do
+    let tmo ← parseTmo? tmo
+    let rs ← parseRs? rs
+    let serial ← serial.toNat?
+    let more ← parseNewCalls? rest
+    pure (⟨serial, tmo, rs⟩ :: more)
+  | _ => none
+
+def stepLine (s : DStR) (line : String) : DStR × String :=
   let ws := words line
   match ws with
-  | ["reset", r] => (St.init DV Nat (r == "1"), "ok")
+  | ["reset", r] => (⟨St.init DV Nat (r == "1"), []⟩, "ok")
+  | "onerr" :: did :: rest =>
+    match did.toNat?, parseNewCalls? rest with
+    | some did, some calls => (stepR asStrTok s (.onErr did calls), "ok")
+    | _, _ => (s, "bad-input")
   | ["cvt", rs, "N"] =>
     match parseRs? rs with
     | some rs => (s, showCvt (cvtReply (none : Option (Reply DV)) rs))
@@ -133,8 +145,8 @@ def stepLine (s : DSt) (line : String) : DSt × String :=
   | _ =>
     match parseOp? ws with
     | some op =>
-      let s' := step asStrTok s op
-      (s', showState s s')
+      let s' := stepR asStrTok s (.op op)
+      (s', showState s.base s'.base)
     | none => (s, "bad-input")
 
-def main : IO Unit := Driver.run stepLine (St.init DV Nat true)
+def main : IO Unit := Driver.run stepLine (⟨St.init DV Nat true, []⟩ : DStR)
